@@ -165,6 +165,36 @@ fn check_one<P: Pid>(prop: &str, ver: Ver, label: &str, ap: &AP, acc: &mut Acc) 
             if &back != ap {
                 v.push(("c03.accessors".into(), "build".into(), "accessors of the built packet do not return the field values it was built from".into()));
             }
+            // packets derived with the public v5 PUBLISH rewriting helpers: their bytes are the
+            // specification's encoding of the field values their accessors report
+            if let GenericPacket::V5_0Publish(p) = &pkt {
+                let mut outs: Vec<(&str, GenericPacket<P>)> = vec![];
+                outs.push(("set_dup", p.clone().set_dup(!p.dup()).into()));
+                if !p.topic_name().is_empty() {
+                    outs.push(("remove_topic_alias", p.clone().remove_topic_alias().into()));
+                    outs.push(("remove_topic_add_topic_alias", p.clone().remove_topic_add_topic_alias(9).into()));
+                }
+                if let Ok(x) = p.clone().remove_topic_alias_add_topic("zz/rewritten".to_string()) {
+                    outs.push(("remove_topic_alias_add_topic", x.into()));
+                }
+                if !p.props().iter().any(|q| matches!(q, mqtt_protocol_core::mqtt::packet::Property::TopicAlias(_))) {
+                    outs.push(("add_topic_alias", p.clone().add_topic_alias(9).into()));
+                }
+                if p.topic_name().is_empty() {
+                    if let Ok(x) = p.clone().add_extracted_topic_name("zz/extracted") {
+                        outs.push(("add_extracted_topic_name", x.into()));
+                    }
+                }
+                for (name, q) in outs {
+                    let qb = q.to_continuous_buffer();
+                    let fields = bridge::read(&q);
+                    let want = rc::encode(&fields, P::W);
+                    if qb != want {
+                        let i = qb.iter().zip(want.iter()).position(|(a, b)| a != b).unwrap_or(qb.len().min(want.len()));
+                        v.push(("c03.rewrite-bytes".into(), name.into(), format!("after {name}: library bytes differ from the specification's encoding of the reported field values at offset {i}: library {} vs reference {}", hex_trunc(&qb[i.saturating_sub(2).min(qb.len())..], 16), hex_trunc(&want[i.saturating_sub(2).min(want.len())..], 16))));
+                    }
+                }
+            }
         }
         v
     });
